@@ -24,7 +24,9 @@ def register(op):
         try:
             for i in get_instructions_bytes(code, opc, exception_entries=exc, **kw):
                 av = i.argval
-                if not isinstance(av, (int, str, type(None))):
+                if isinstance(av, tuple) and len(av) == 2:
+                    av = list(av)
+                elif not isinstance(av, (int, str, type(None))):
                     av = repr(av)
                 out.append({"offset": i.offset, "opcode": i.opcode, "opname": i.opname, "arg": i.arg, "argval": av,
                             "size": i.inst_size, "ext": bool(i.has_extended_arg), "jt": bool(i.is_jump_target),
